@@ -14,6 +14,7 @@ def check(repo: Repo, rep, tier):
     rep.not_decided = "atomicity against a crash inside file.write() itself; what an arbitrary format-command prints"
     compute_before_open(repo, rep)
     fmt_degrade(repo, rep)
+    problems_total(repo, rep)
     fmt_taint(repo, rep)
     fmt_no_cache(repo, rep)
     persist_before_write(repo, rep)
@@ -165,6 +166,27 @@ def fmt_degrade(repo: Repo, rep):
                 rep.violation("R-FMT-DEGRADE", d, c, f"{d.qualname} writes files on a path that never calls report_problems(): formatter failures stay invisible", construct="noreport")
 
 
+def problems_total(repo: Repo, rep):
+    rep.rule(
+        "R-PROBLEMS-TOTAL",
+        "a formatter failure is *reported*: raise_problem() records every message it is given - the store is filled on every path through the function, "
+        "not filtered by a memo of what an earlier session of the same process already showed (pytest.main() twice, pytester in-process, several "
+        "Example.run_inline in one test): the second session would degrade to unformatted code silently",
+    )
+    m = repo.module("_problems.py")
+    f = m.funcs.get("raise_problem")
+    if f is None:
+        rep.undecided("R-PROBLEMS-TOTAL", "raise_problem not found in _problems.py")
+        return
+    cfg = cfg_of(f)
+    adds = [n_ for n_ in cfg.live for c in node_calls(n_) if isinstance(c.func, ast.Attribute) and c.func.attr in ("add", "append") and any(isinstance(a_, ast.Name) and a_.id in f.params for a_ in c.args)]
+    rep.floor("R-PROBLEMS-TOTAL", "stores of the message in raise_problem", len(adds), 1)
+    if adds and must_reach(cfg, cfg.entry, adds, [cfg.ret], skip_labels=("exc",)):
+        rep.ok("R-PROBLEMS-TOTAL", f, adds[0].ast, "every message is recorded")
+    elif adds:
+        rep.violation("R-PROBLEMS-TOTAL", f, adds[0].ast, "raise_problem() can return without recording the message (it is filtered against something remembered from before): a repeated formatter failure - the same command failing in the next in-process session - is no longer reported, the file is written unformatted without a word", construct="message-filtered")
+
+
 def _fmt_degrade_in(repo: Repo, rep, f, cg):
     cfg = cfg_of(f)
     if not f.params:
@@ -223,6 +245,18 @@ def _fmt_degrade_in(repo: Repo, rep, f, cg):
                 f"{f.qualname} returns its input unformatted on a path that is no failure of the formatter (no exception handler, no exit status): for the inputs that take this path nothing is formatted - "
                 "not the generated fragment, not the final whole-file pass - and a formatter-clean file does not stay clean",
                 construct="declines-to-format",
+            )
+    # the exit status alone says whether the command failed: the returncode test is not combined with anything else (output on stderr
+    # is what linters / black without -q produce on success)
+    for x in body_nodes(f.node):
+        if isinstance(x, ast.BoolOp) and any(isinstance(v_, ast.Compare) and "returncode" in norm(v_) for v_ in x.values) and len(x.values) > 1:
+            rep.violation(
+                "R-FMT-DEGRADE",
+                f,
+                x,
+                f"`{short(x, 60)}`: success of the format-command is decided by more than its exit status: a formatter that exits 0 and writes to stderr counts as failed - every call returns its input unformatted, "
+                "so the file that was clean for the project's formatter is written unformatted",
+                construct="failure-widened",
             )
     # format_str inside a catch-all try
     fs = [(n, c) for n in cfg.live for c in node_calls(n) if norm(c.func).endswith("format_str")]
